@@ -87,10 +87,10 @@ def acctinfo(mins, infos):
         if inf["kind"] == "bank":
             x = ["BANKACCTINFO", None, [["BANKACCTFROM", None, [["BANKID", inf["instid"], []], ["ACCTID", inf["acctid"], []],
                                                                ["ACCTTYPE", inf["accttype"], []]]],
-                                        ["SUPTXDL", "Y", []], ["XFERSRC", "N", []], ["XFERDEST", "N", []], ["SVCSTATUS", inf["status"], []]]]
+                                        ["SUPTXDL", inf.get("suptxdl", "Y"), []], ["XFERSRC", "N", []], ["XFERDEST", "N", []], ["SVCSTATUS", inf["status"], []]]]
         elif inf["kind"] == "cc":
             x = ["CCACCTINFO", None, [["CCACCTFROM", None, [["ACCTID", inf["acctid"], []]]],
-                                      ["SUPTXDL", "Y", []], ["XFERSRC", "N", []], ["XFERDEST", "N", []], ["SVCSTATUS", inf["status"], []]]]
+                                      ["SUPTXDL", inf.get("suptxdl", "Y"), []], ["XFERSRC", "N", []], ["XFERDEST", "N", []], ["SVCSTATUS", inf["status"], []]]]
         else:
             x = ["INVACCTINFO", None, [["INVACCTFROM", None, [["BROKERID", inf["instid"], []], ["ACCTID", inf["acctid"], []]]],
                                        ["USPRODUCTTYPE", "OTHER", []], ["CHECKING", "N", []], ["SVCSTATUS", inf["status"], []]]]
